@@ -22,6 +22,8 @@ type Stdio struct {
 	BytesOut int
 	Reads    int
 	ShortReads int
+	Coalesced  int
+	eofPending bool
 }
 
 func (io_ *Stdio) init() {
@@ -36,8 +38,9 @@ type stdoutT struct{}
 var Stdin = &stdinT{}
 var Stdout = &stdoutT{}
 
+//go:norace
 func curStdio() *Stdio {
-	if s := active; s != nil {
+	if s := act(); s != nil {
 		return s.cfg.Stdio
 	}
 	return nil
@@ -49,6 +52,9 @@ func (*stdinT) Read(b []byte) (int, error) {
 		return os.Stdin.Read(b)
 	}
 	Yield("stdio", "read<")
+	if len(st.rest) == 0 && st.eofPending {
+		return 0, io.EOF
+	}
 	if len(st.rest) == 0 {
 		frag, ok := <-st.in
 		Yield("stdio", "read>")
@@ -57,6 +63,24 @@ func (*stdinT) Read(b []byte) (int, error) {
 		}
 		st.rest = frag
 	}
+	// A read may also return bytes of several writes at once (the tail of one packet,
+	// whole packets, the head of the next): seeded coalescing of what is already queued.
+	for len(st.rest) < len(b) && st.Frag != nil && st.Frag.Next(3) != 0 {
+		select {
+		case more, ok := <-st.in:
+			if !ok {
+				// EOF is delivered by the next read
+				st.eofPending = true
+				goto done
+			}
+			st.rest = append(st.rest, more...)
+			st.Coalesced++
+			continue
+		default:
+		}
+		break
+	}
+done:
 	n := copy(b, st.rest)
 	st.rest = st.rest[n:]
 	st.Reads++
